@@ -30,6 +30,28 @@ def probeDomain : List (List CpOut × Bool × ValOut) :=
   (c.flatMap fun a => c.flatMap fun b => c.flatMap fun d => c.map fun e => [a, b, d, e]).flatMap fun cps =>
     [true, false].flatMap fun w => [ValOut.absent, .yes, .no, .raise].map fun v => (cps, w, v)
 
+/-! ### the operation ended from inside one of its own callbacks -/
+
+/-- position 0..3 = the i-th checkpoint condition, 4 = `work_fn`, 5 = `validate_fn`; how 0 = `kill_operation` of the
+    operation itself, otherwise `shutdown()`; every checkpoint condition is the default one -/
+def killAdv (pos how : Nat) (workOk : Bool) (val : ValOut) : Adv :=
+  let a : WorkAct := if how == 0 then .kill 1 else .shutdown
+  { cp := fun _ => .base, act := if pos == 4 then a else .none, workOk := workOk, val := val,
+    cpAct := fun i => if i == pos && decide (pos < 4) then a else .none,
+    valAct := if pos == 5 then a else .none }
+
+/-- (success, phase reported, callback events in order, the resource owned by the operation as the work function
+    found the system — `none` when the work function did not run —, nothing active and the resource free afterwards) -/
+def killProbeRow (pos how : Nat) (workOk : Bool) (val : ValOut) : Bool × Phase × List Ev × Option Bool × Bool :=
+  let r := exec probeSys 1 3 [1] (killAdv pos how workOk val)
+  (r.success, r.phase, r.log.filter isCallbackEv,
+   r.atWork.map (fun w => (w.locks 1).map (·.owner) == some (some 1)),
+   r.sys.active.isEmpty && ((r.sys.locks 1).map (·.owner) == some none))
+
+def killProbeDomain : List (Nat × Nat × Bool × ValOut) :=
+  ([0, 1, 2, 3, 4, 5].flatMap fun pos => [0, 1].flatMap fun how => [true, false].flatMap fun w =>
+    [ValOut.absent, .yes, .no, .raise].map fun v => (pos, how, w, v)).filter fun r => !(r.1 == 5 && r.2.2.2 == .absent)
+
 /-! ### the watchdog's per-operation verdict on the probe's grid -/
 
 /-- the verdict of the model's `timeoutEvent` for an operation in phase `ph` that was created `e1` and entered its
